@@ -72,6 +72,9 @@ def run(rep):
         return
     # ---- gating ------------------------------------------------------------------------------------------------------------------
     arms = a_term[1] if a_term[0] == 'alt' else []
+    if a_term[0] == 'opt':
+        # `cond.then(|| quote!{ asserts })` interpolated as an Option: present under cond, nothing otherwise
+        arms = [(a_term[1], a_term[2]), (E.TRUE, ('tmpl', '', [], ''))]
     with_assert = [(c, v) for c, v in arms if E.find_templates(v, lambda x: 'assert !' in E.tmpl_text(x))]
     rep.check(len(with_assert) == 1, 'C05.gating', 'one-arm', where, f'{len(with_assert)} alternatives produce assertions', ok_detail='one alternative')
     set_term = None
@@ -86,7 +89,10 @@ def run(rep):
                     return (vb,)
                 return None
             try:
-                got = 'assert !' in Eval(leaf, lenient=True).ev(a_term)
+                got_ = Eval(leaf, lenient=True).ev(a_term)
+                if isinstance(got_, tuple) and len(got_) == 2 and got_[0] == 'some':
+                    got_ = got_[1]
+                got = 'assert !' in str(got_ if got_ is not None else '')      # an Option hole that is None prints nothing
             except (Unbound, Diverge) as u:
                 rep.bad('C05.gating', f'gate:{int(va)}{int(vb)}', where, f'cannot evaluate the gate of the assertions: {u}', undecided=True)
                 continue
